@@ -921,5 +921,9 @@ theorem step_sim {c : Conn} {s : Spec} (h : Sim c s) (op : Op) (s' : Spec) (r : 
   | connect => simp [Spec.step] at hs
   | gc => simp [Spec.step] at hs
   | autocommit => simp [Spec.step] at hs
+  | readUnc => simp [Spec.step] at hs
+  | logToken => simp [Spec.step] at hs
+  | otherOpt => simp [Spec.step] at hs
+  | tokenAuto => simp [Spec.step] at hs
 
 end SaVerif.Txn
